@@ -66,7 +66,8 @@ func scanRescPair(c *core.Ctx) []ob {
 					return false
 				}
 				s := exprString(as.Rhs[0])
-				return s == fmt.Sprintf("%s.AtLevel(%s.Level() - 1)", o.Name(), o.Name())
+				// the level read through the accessor or the field
+				return s == fmt.Sprintf("%s.AtLevel(%s.Level() - 1)", o.Name(), o.Name()) || s == fmt.Sprintf("%s.AtLevel(%s.level - 1)", o.Name(), o.Name())
 			}
 			nDiv := 0
 			recvVar := recvObj(info, fd)
